@@ -53,6 +53,7 @@ func runC07(c *core.Ctx) {
 	// encoder's candidate - C09's rule on encoder.Run (usable iff the producer that ran succeeded)
 	c.MinInstances("C07-REFUSE", 1)
 	importRulesFn(c, "C09", "C07-REFUSE", func(sub *core.Ctx) { runRule(sub); resultRule(sub) }, nil)
+	refusalKeptRule(c)
 	c.MinInstances("C07-TEMPLATE", 4)
 	c.MinInstances("C07-HDR", 2)
 	c.MinInstances("C07-NARROW", 4)
@@ -583,4 +584,132 @@ func constStringValue(c *core.Ctx, v ssa.Value) (string, bool) {
 		}
 	}
 	return "", false
+}
+
+// refusalKeptRule (C07-REFUSE #direct): the two content encoders call the splitters themselves. A splitter's refusal (more
+// than 255 parts) is the caller's refusal: the error result of every call of splitWithUDHI / encodeAndSplitGSM7Packed in
+// EncodeCMPPContentAndSplit / EncodeSMPPContentAndSplit (or in an unexported helper between them) is returned as it is,
+// or tested, its non-nil side ending in a return with a non-nil error.
+func refusalKeptRule(c *core.Ctx) {
+	splitters := map[string]bool{"splitWithUDHI": true, "encodeAndSplitGSM7Packed": true}
+	n := 0
+	for _, name := range []string{"EncodeCMPPContentAndSplit", "EncodeSMPPContentAndSplit"} {
+		root := c.Prog.SSAFunc(c.Prog.LookupFunc("", name))
+		if root == nil {
+			c.Broken("C07-REFUSE", name+"#direct", "function not found")
+			continue
+		}
+		// the function and the unexported plain helpers it calls (one level)
+		fns := []*ssa.Function{root}
+		for _, b := range root.Blocks {
+			for _, ins := range b.Instrs {
+				if call, ok := ins.(*ssa.Call); ok {
+					if h := call.Call.StaticCallee(); h != nil && h.Pkg == root.Pkg && h.Object() != nil && !h.Object().Exported() && len(h.Blocks) > 0 && !splitters[canonName(h)] {
+						fns = append(fns, h)
+					}
+				}
+			}
+		}
+		for _, fn := range fns {
+			for _, b := range fn.Blocks {
+				for _, ins := range b.Instrs {
+					call, ok := ins.(*ssa.Call)
+					if !ok || call.Call.StaticCallee() == nil || !splitters[canonName(call.Call.StaticCallee())] {
+						continue
+					}
+					n++
+					key := fmt.Sprintf("%s->%s#direct", name, canonName(call.Call.StaticCallee()))
+					res := call.Call.StaticCallee().Signature.Results()
+					errIdx := res.Len() - 1
+					var ext *ssa.Extract
+					if call.Referrers() != nil {
+						for _, r := range *call.Referrers() {
+							if e, isE := r.(*ssa.Extract); isE && e.Index == errIdx {
+								ext = e
+							}
+						}
+					}
+					why := ""
+					looked := false
+					if ext != nil && ext.Referrers() != nil {
+						for _, r := range *ext.Referrers() {
+							if _, isDbg := r.(*ssa.DebugRef); !isDbg {
+								looked = true
+							}
+						}
+					}
+					if !looked {
+						why = "the splitter's error is not looked at: a message that needs more than 255 parts is answered with no parts and no error"
+					} else {
+						// wherever the splitter's parts are answered with a nil error, the splitter's error was found nil on the
+						// way there (anything else - an error return, a fallback to another coding - is the caller's business)
+						var okEdges []*ssa.BasicBlock // blocks entered over "err == nil"
+						returned := false
+						for _, r := range *ext.Referrers() {
+							switch x := r.(type) {
+							case *ssa.Return:
+								returned = true
+							case *ssa.BinOp:
+								if (x.Op != token.NEQ && x.Op != token.EQL) || x.Referrers() == nil {
+									continue
+								}
+								for _, rr := range *x.Referrers() {
+									if ifi, isIf := rr.(*ssa.If); isIf {
+										okTo := ifi.Block().Succs[1]
+										if x.Op == token.EQL {
+											okTo = ifi.Block().Succs[0]
+										}
+										if len(okTo.Preds) == 1 {
+											okEdges = append(okEdges, okTo)
+										}
+									}
+								}
+							}
+						}
+						var parts *ssa.Extract
+						for _, r := range *call.Referrers() {
+							if e, isE := r.(*ssa.Extract); isE && e.Index == 0 {
+								parts = e
+							}
+						}
+						for _, rb := range fn.Blocks {
+							ret, isRet := rb.Instrs[len(rb.Instrs)-1].(*ssa.Return)
+							if !isRet || len(ret.Results) == 0 || parts == nil {
+								continue
+							}
+							last := ret.Results[len(ret.Results)-1]
+							if k, isK := last.(*ssa.Const); !isK || !k.IsNil() {
+								continue // answers an error (the splitter's own, if `returned`)
+							}
+							var roots []ssa.Value
+							rootsOf(ret.Results[0], map[ssa.Value]bool{}, &roots)
+							fromSplit := false
+							for _, x := range roots {
+								if x == ssa.Value(parts) {
+									fromSplit = true
+								}
+							}
+							if !fromSplit {
+								continue
+							}
+							guarded := false
+							for _, ob := range okEdges {
+								if ob == rb || ob.Dominates(rb) {
+									guarded = true
+								}
+							}
+							if !guarded {
+								why = "the splitter's parts are answered with a nil error at " + c.Prog.Pos(ret.Pos()) + " on a path that has not found the splitter's error nil"
+							}
+						}
+						_ = returned
+					}
+					c.Decide(why == "", "C07-REFUSE", key, c.Prog.Pos(call.Pos()), "the splitter's refusal is the caller's", why)
+				}
+			}
+		}
+	}
+	if n == 0 {
+		c.Broken("C07-REFUSE", "#direct", "no splitter call found in the content encoders")
+	}
 }
